@@ -35,7 +35,7 @@ def main():
     from partitura.io.exportparangonada import save_parangonada_alignment, save_alignment_for_ASAP, save_parangonada_csv
     from partitura.io.importparangonada import load_parangonada_alignment, load_alignment_from_ASAP, load_parangonada_csv
     import partitura.score as S
-    from partitura.io.importnakamura import load_nakamuracorresp
+    from partitura.io.importnakamura import load_nakamuracorresp, load_nakamuramatch
     tier = common.tier()
     t0 = time.time()
     r = tlc.run("AlignmentFilesCases", "AlignmentFilesCases.%s.cfg" % tier, "g10/mc", workers=8, coverage=True, timeout=7000, heap="4g")
@@ -140,6 +140,31 @@ def main():
                 dev("corresp.note_arrays", c["al"], [list(map(str, perf["id"])), list(map(str, ref["id"]))], "performed ids / score ids of the alignment")
         except Exception as ex:
             dev("corresp.raises" + (".single_row" if len(c["al"]) == 1 else ""), c["al"], "%s: %s" % (type(ex).__name__, str(ex)[:200]), "no exception")
+        # ---- Nakamura match (read only): rows for matches and insertions, "//Missing" lines for deletions
+        f = os.path.join(wd, "match.txt")
+        try:
+            with open(f, "w") as fh:
+                fh.write("//Version: PianoRoll_v170503\n// Score: x\n")
+                t = 0
+                for e in c["al"]:
+                    if e["label"] == "deletion":
+                        continue
+                    sid = e["sid"] if e["label"] == "match" else "*"
+                    fh.write("%s\t%.3f\t%.3f\tC4\t64\t64\t0\t0\t%d\t%s\t0\t-\n" % (e["pid"], 0.5 * t, 0.5 * t + 0.4, 240 * t, sid))
+                    t += 1
+                for e in c["al"]:
+                    if e["label"] == "deletion":
+                        fh.write("//Missing %d\t%s\n" % (240 * t, e["sid"]))
+                        t += 1
+            if any(e["label"] != "deletion" for e in c["al"]):
+                perf, ref, back = load_nakamuramatch(f)
+                if norm(back) != c["nback"]:
+                    dev("nakamura_match.read_back", c["al"], norm(back), c["nback"])
+                if sorted(str(x) for x in perf["id"]) != sorted(e["pid"] for e in c["al"] if "pid" in e) or \
+                   sorted(str(x) for x in ref["id"]) != sorted(e["sid"] for e in c["al"] if "sid" in e):
+                    dev("nakamura_match.note_arrays", c["al"], [list(map(str, perf["id"])), list(map(str, ref["id"]))], "performed ids / score ids of the alignment")
+        except Exception as ex:
+            dev("nakamura_match.raises", c["al"], "%s: %s" % (type(ex).__name__, str(ex)[:200]), "no exception")
     import shutil
     shutil.rmtree(wd, ignore_errors=True)
     out = os.path.join(common.OUT, "growth")
